@@ -252,13 +252,13 @@ func (zsl *ZSkipList) DeleteRangeByScore(min, max int64, dict map[collections.Co
 	var removed int
 	var x = zsl.head
 	for i := zsl.level - 1; i >= 0; i-- {
-		for x.level[i].forward != nil && x.level[i].forward.Score <= min {
+		for x.level[i].forward != nil && x.level[i].forward.Score < min {
 			x = x.level[i].forward
 		}
 		update[i] = x
 	}
 
-	// Current node is the last with score < or <= min
+	// Current node is the last with score < min
 	x = x.level[0].forward
 
 	// Delete nodes while in range
